@@ -25,7 +25,7 @@ def run(ctx):
     traces = [FC.traffic_session(ctx, "s%d" % k, ID) for k in range(ctx.pick(110, 5000))]
     traces += [FC.restart_replay_session(ctx, "r%d" % k) for k in range(ctx.pick(25, 600))]
     nd = FC.traffic_stats(ctx, traces)
-    FC.validate(ctx, traces, (ID + ".",) + ("C12.poweroff-forgets-hopping", "C05.effect.hopping", "C05.effect.rx", "C05.effect.tx"), "TV FakeTrxTrace (%s traffic sessions on the real Application)" % ID, discr)
+    FC.validate(ctx, traces, (ID + ".",) + ("C12.poweroff-forgets-hopping", "C05.effect.hopping", "C05.effect.rx", "C05.effect.tx", "C14.no-exception"), "TV FakeTrxTrace (%s traffic sessions on the real Application)" % ID, discr)
     t0 = traces[0]
     ctx.sample(dict(argv=t0["cfg"]["argv"], start=t0["cfg"]["start"],
                     events=[(e["e"], e.get("t"), e.get("fn"), bytes(e.get("raw", []))[:24].decode("latin1")) for e in t0["ev"][:14]]))
